@@ -4,6 +4,7 @@ import Driver.C01
 import Driver.C06
 import Driver.C07
 import Driver.C29
+import Driver.Pool
 open Mitum Mitum.Driver
 
 def step (line : String) : String :=
@@ -12,6 +13,8 @@ def step (line : String) : String :=
   | "C02" :: ts => stepC02 ts
   | "C06" :: ts => stepC06 ts
   | "C07" :: ts => stepC07 ts
+  | "C22" :: ts => stepC22 ts
+  | "C23" :: ts => stepC23 ts
   | "C29" :: ts => stepC29 ts
   | "C35" :: ts => stepC35 ts
   | _ => "bad-op"
